@@ -89,7 +89,10 @@ impl Function for RandomBytes {
 }
 
 fn get_length(value: Value) -> std::result::Result<usize, &'static str> {
-    let length = value.try_integer().expect("length must be an integer");
+    // the argument may only be typed at runtime: anything but an integer is an error
+    let length = value
+        .try_integer()
+        .map_err(|_| "length must be an integer")?;
     if length < 0 {
         return Err(LENGTH_TOO_SMALL_ERR);
     }
